@@ -55,6 +55,8 @@ type CheckDef struct {
 	B      int    // column index when BIsCol
 	BIsCol bool
 	C      int64
+	// NotEnforced: declared NOT ENFORCED; rows need not satisfy it
+	NotEnforced bool
 }
 
 // TableDef is a table of the fragment.
@@ -172,7 +174,11 @@ func (t *TableDef) DDL() string {
 		}
 	}
 	for _, c := range t.Checks {
-		parts = append(parts, "CONSTRAINT `"+c.Name+"` CHECK ("+c.SQL(t)+")")
+		ne := ""
+		if c.NotEnforced {
+			ne = " NOT ENFORCED"
+		}
+		parts = append(parts, "CONSTRAINT `"+c.Name+"` CHECK ("+c.SQL(t)+")"+ne)
 	}
 	return "CREATE TABLE `" + t.Name + "` (" + strings.Join(parts, ", ") + ")"
 }
@@ -336,6 +342,10 @@ func GenTable(T *kernel.Tape, name string, o SchemaOpts) *TableDef {
 				if b != a {
 					ck.BIsCol, ck.B, ck.Op = true, b, []string{"<", "<>"}[T.Draw(2)]
 				}
+			}
+			if T.Bool(1, 3) {
+				// a check that is declared but not enforced, ahead of the enforced one: most rows violate it
+				t.Checks = append(t.Checks, CheckDef{Name: "ck0", A: ints[T.Draw(len(ints))], Op: "<", C: -1000000, NotEnforced: true})
 			}
 			t.Checks = append(t.Checks, ck)
 		}
